@@ -548,11 +548,13 @@ def broadcast_oracle(ctx, n):
                                 continue
                         elif full == () and not isinstance(r, (float, np.floating)):
                             ctx.violation("scalar inputs do not give a scalar", dict(inp, signature="C08:scalar:%s" % name, component=ci, result_type=type(r).__name__))
-                        if is_astro:
+                        if is_astro and (dkind != "float32" or nshape != ()):
+                            # (np.float32 SCALARS: the property text only fixes "float32 arrays give float32";
+                            #  their kind is covered by the model's table, not by this oracle)
                             want = "float32" if dkind == "float32" else "float64"
-                            if str(r.dtype) != want:
+                            if str(getattr(r, "dtype", type(r).__name__)) != want:
                                 ctx.violation("result dtype is not the documented one (float32 stays float32, everything else float64)",
-                                              dict(inp, signature="C08:dtype:%s:%s" % (name, dkind), component=ci, dtype=str(r.dtype), documented=want))
+                                              dict(inp, signature="C08:dtype:%s:%s" % (name, dkind), component=ci, dtype=str(getattr(r, "dtype", type(r).__name__)), documented=want))
                     vals = [np.asarray(r.compute() if isinstance(r, da.Array) else r) for r in res]
                     # element by element against the corresponding scalar calls
                     lonb = np.broadcast_to(np.asarray(lon.compute() if dkind == "dask" else lon), full)
